@@ -6,9 +6,11 @@ REPO=${VERIF_REPO:-/repo}
 B=${VERIF_BUILD:-/verif/build}
 R=$B/schedrt
 mkdir -p $R $B/sched
-rsync -a --delete --exclude z_chan.go --exclude sema_llgo.go --exclude /fetchx/fetch.go --exclude '/isync/mutex.go' --exclude '/syncx/z_*.go' /verif/sched/rt/ $R/
+rsync -a --delete --exclude z_chan.go --exclude sema_llgo.go --exclude /fetchx/fetch.go --exclude '/isync/mutex.go' --exclude '/syncx/z_*.go' --exclude '/internal/lib/sync/atomic/z_value.go' /verif/sched/rt/ $R/
 grep -v '^//go:linkname' $REPO/runtime/internal/runtime/z_chan.go > $R/internal/runtime/z_chan.go
 grep -v '^//go:linkname' $REPO/runtime/internal/lib/runtime/sema_llgo.go > $R/internal/lib/runtime/sema_llgo.go
+# llgo's own atomic.Value, byte-identical (it imports only unsafe and calls the package's pointer operations, which the stand-in package provides)
+cp $REPO/runtime/internal/lib/sync/atomic/value.go $R/internal/lib/sync/atomic/z_value.go
 # internal/crosscompile/fetch.go, byte-identical except for four import paths (os, syscall, net/http, time -> scheduler-aware stand-ins)
 sed -e 's|^\t"os"$|\tos "github.com/goplus/llgo/runtime/vos"|' -e 's|^\t"syscall"$|\tsyscall "github.com/goplus/llgo/runtime/vsyscall"|' \
     -e 's|^\t"net/http"$|\thttp "github.com/goplus/llgo/runtime/vhttp"|' -e 's|^\t"time"$|\ttime "github.com/goplus/llgo/runtime/vtime"|' \
